@@ -244,7 +244,9 @@ def decisionMargin (sc : SolveCase) : Float :=
         | some r =>
           let eps : Float := EPS
           let rs := takeRows e.c.residualDim r.r0 r.r1 r.r2
-          rs.foldl (fun m v => min m (rel v.abs eps)) m
+          -- (the error measure of a request at coordinates of magnitude `xinf` carries rounding noise
+          -- of a few ulp(xinf); relative to EPS that is what decides whether a verdict is near its threshold)
+          rs.foldl (fun m v => min m (relAt v.abs eps (maxAbs0 xf))) m
         | none => m
     | _, _ => m
 
